@@ -10,6 +10,7 @@ import (
 	"net/url"
 	"sort"
 	"strings"
+	"syscall"
 	"time"
 )
 
@@ -90,11 +91,24 @@ type Client struct {
 	// LastAbandonAddr is the local address of the connection the last Abandon used (the
 	// server sees it as the remote address of the connection)
 	LastAbandonAddr string
+	// SlowRead: the body is read in 16 KiB pieces with a short pause after each (a client on a slow link), so that
+	// large answers are still being written while other requests are served
+	SlowRead bool
 }
 
 func NewClient(base string, timeout time.Duration) *Client {
 	tr := &http.Transport{MaxIdleConnsPerHost: 4, DisableCompression: true}
 	return &Client{Base: base, Timeout: timeout, hc: &http.Client{Transport: tr, Timeout: timeout}}
+}
+
+// SlowLink makes the client behave like one behind a slow link: a receive window of a few KiB (so that the
+// server's writes block instead of disappearing into kernel buffers) and a paced read of the body.
+func (c *Client) SlowLink() {
+	d := &net.Dialer{Timeout: 5 * time.Second, Control: func(network, address string, rc syscall.RawConn) error {
+		return rc.Control(func(fd uintptr) { syscall.SetsockoptInt(int(fd), syscall.SOL_SOCKET, syscall.SO_RCVBUF, 8<<10) })
+	}}
+	c.hc.Transport = &http.Transport{MaxIdleConnsPerHost: 2, DisableCompression: true, DialContext: d.DialContext}
+	c.SlowRead = true
 }
 
 // Do sends the request and reads the whole response.
@@ -120,7 +134,11 @@ func (c *Client) Do(rq Req) Resp {
 		return Resp{Err: e, TimedOut: isTimeout(e), Wall: time.Since(t0)}
 	}
 	defer resp.Body.Close()
-	b, err := io.ReadAll(io.LimitReader(resp.Body, 1<<30))
+	var rd io.Reader = io.LimitReader(resp.Body, 1<<30)
+	if c.SlowRead {
+		rd = &slowBody{r: rd}
+	}
+	b, err := io.ReadAll(rd)
 	out := Resp{Status: resp.StatusCode, Header: resp.Header, Body: b, Wall: time.Since(t0)}
 	if err != nil {
 		out.Err = "body: " + err.Error()
@@ -182,4 +200,15 @@ func (c *Client) Abandon(rq Req, after int, wait time.Duration) (int, error) {
 		}
 	}
 	return n, nil
+}
+
+type slowBody struct{ r io.Reader }
+
+func (s *slowBody) Read(p []byte) (int, error) {
+	if len(p) > 16<<10 {
+		p = p[:16<<10]
+	}
+	n, err := s.r.Read(p)
+	time.Sleep(time.Millisecond)
+	return n, err
 }
